@@ -849,7 +849,8 @@ func buildDocPool(cfg Config) (*docPool, error) {
 		corpus.Doc{Name: "ttml-dot-times", Format: "ttml", Data: []byte(`<tt xmlns="http://www.w3.org/ns/ttml"><body><div><p begin="07:11:13.517" end="07:11:15.919">dot</p></div></body></tt>`)},
 		corpus.Doc{Name: "ssa-same-times", Format: "ssa", Data: []byte("[Script Info]\nTitle: t\n\n[Events]\nFormat: Marked, Start, End, Style, Name, MarginL, MarginR, MarginV, Effect, Text\nDialogue: Marked=0,7:11:13.51,7:11:15.91,Default,,0,0,0,,ssa\n")})
 	// SSA documents that re-declare their columns half way through [Events] (first Format line as in nearly every file)
-	p.docs = append(p.docs, corpus.SSATwoFormats(false), corpus.SSATwoFormats(true))
+	// (part of corpus.Fixed, together with WebVTT header lines, an STL file ending in a dangling diacritic, ...)
+	p.docs = append(p.docs, corpus.Fixed()...)
 	// UTF-16 documents (rejected today; the input that support for a second encoding would start to accept), small and
 	// larger than a 4 KiB transcoding chunk: theme "utf16" makes every task read one of them
 	{
@@ -909,7 +910,7 @@ func genTask(r *prng.R, pool *docPool, idx int, theme string) TaskProg {
 	if theme != "" && theme != "writers" && theme != "files" && theme != "missing" && theme != "samefile" { // themed scenario: every task works on the same format (different documents)
 		var same []corpus.Doc
 		for _, x := range pool.docs {
-			if x.Format == theme || (theme == "utf16" && strings.Contains(x.Name, "~utf16")) {
+			if x.Format == theme || (theme == "utf16" && strings.Contains(x.Name, "~utf16")) || (theme == "times" && strings.HasSuffix(x.Name, "-times")) {
 				same = append(same, x)
 			}
 		}
@@ -934,7 +935,7 @@ func genTask(r *prng.R, pool *docPool, idx int, theme string) TaskProg {
 		t.Spec, t.OpenExt = &l, ""
 		t.Name = "t" + strconv.Itoa(idx) + ":" + l.Name
 	}
-	if r.Bool(0.04) && theme != "samefile" && theme != "missing" { // a long plain list: size thresholds of writers and transformations
+	if r.Bool(0.08) && theme != "samefile" && theme != "missing" && theme != "times" && theme != "utf16" { // a long plain list: size thresholds of writers and transformations
 		t.Many, t.Spec, t.OpenExt, t.Doc = r.PickInt(300, 1100, 4200), nil, "", nil
 		t.Name = "t" + strconv.Itoa(idx) + ":many-" + strconv.Itoa(t.Many)
 	}
@@ -1005,7 +1006,7 @@ func genTask(r *prng.R, pool *docPool, idx int, theme string) TaskProg {
 			t.FileWrites = append(t.FileWrites, r.Pick("", "", "", "sub/")+r.Pick("srt", "vtt", "ssa", "ass", "stl", "ttml"))
 		}
 	}
-	if len(t.Writers) > 0 && r.Bool(0.25) { // the list is used again after it was written
+	if len(t.Writers) > 0 && (r.Bool(0.25) || (t.WFaults != nil && r.Bool(0.6))) { // the list is used again after it was written (or after the attempt failed)
 		for _, op := range genOps(r) {
 			if op.Name != "fragment" && op.Name != "forceduration" && op.Name != "merge" && len(t.PostOps) < 2 {
 				t.PostOps = append(t.PostOps, op)
@@ -1024,7 +1025,7 @@ func genScenario(root *prng.R, pool *docPool, j int, lim c20Limits) C20Scenario 
 	sc := C20Scenario{Seed: r.Uint64(), Policy: r.Pick("uniform", "rr", "burst", "starve0"), Mean: float64(r.PickInt(1, 2, 5, 20, 100, 1000))}
 	// swarm: a third of the scenarios are themed (all tasks on one format, so that the same functions and
 	// tables are in use by several tasks at once), some are "writer storms" (all tasks write the same formats)
-	theme := r.Pick("", "", "", "", "ts", "ts", "stl", "vtt", "srt", "ssa", "ttml", "writers", "writers", "files", "missing", "samefile", "utf16")
+	theme := r.Pick("", "", "", "", "ts", "ts", "stl", "vtt", "srt", "ssa", "ttml", "writers", "writers", "files", "missing", "samefile", "utf16", "times")
 	fileExt := r.Pick("srt", "vtt", "ssa", "stl", "ttml")
 	storm := []string{api.WriterFormats[r.Intn(len(api.WriterFormats))], api.WriterFormats[r.Intn(len(api.WriterFormats))]}
 	var all []int
@@ -1271,9 +1272,9 @@ func RunC20(cfg Config) (*ShardResult, error) {
 			}
 			batch := list[b:end]
 			// one P by default (only one task is runnable anyway; per-P caches then behave the same in every run);
-			// every fourth batch gets four, so that code which sizes its own parallelism by GOMAXPROCS is exercised too
+			// every second batch gets four, so that code which sizes its own parallelism by GOMAXPROCS is exercised too
 			childProcs = 1
-			if (b/lim.batch)%4 == 3 {
+			if (b/lim.batch)%2 == 1 {
 				childProcs = 4
 			}
 			results, races, err := e.runBatch(build, batch)
